@@ -78,6 +78,8 @@ type vWorld struct {
 	lost        bool // the last injected failure was a lost response: the write was applied
 	// listerFaults: lookups in the claim cache may fail too (C06)
 	listerFaults bool
+	// faultOnly: if set, only calls with this verb may fail
+	faultOnly string
 }
 
 type vCrash struct{}
@@ -91,7 +93,7 @@ func (w *vWorld) record(op vOp) *vOp {
 
 // fault decides (symbolically) whether the current API call fails, and how.
 func (w *vWorld) fault(verb, resource, name string) error {
-	if w.faultBudget <= 0 {
+	if w.faultBudget <= 0 || (w.faultOnly != "" && w.faultOnly != verb) {
 		return nil
 	}
 	// the variable is named after the call's target, not its position, so that
